@@ -241,6 +241,50 @@ pub fn error_to_string(
     }
 }
 
+/// Shared body of the error constructors. `new Error(m, { cause })` initialises the object the
+/// `new` operator made; `Error(m)` called as a function makes the error object itself.
+fn construct_or_call_error(
+    interp: &mut Interpreter,
+    this: JsValue,
+    args: &[JsValue],
+    name: &str,
+) -> Result<Guarded, JsError> {
+    let message = args.first().cloned().unwrap_or(JsValue::Undefined);
+    let (target, result) = match &this {
+        JsValue::Object(this_obj) => (
+            this_obj.clone(),
+            Guarded::unguarded(JsValue::Undefined),
+        ),
+        _ => {
+            let guard = interp.heap.create_guard();
+            let obj = interp.create_object(&guard);
+            let ctor_key = PropertyKey::String(interp.intern(name));
+            let proto_key = PropertyKey::String(interp.intern("prototype"));
+            let ctor = interp.global.borrow().get_property(&ctor_key);
+            if let Some(JsValue::Object(ctor)) = ctor
+                && let Some(JsValue::Object(proto)) = ctor.borrow().get_property(&proto_key)
+            {
+                obj.borrow_mut().prototype = Some(proto);
+            }
+            (
+                obj.clone(),
+                Guarded::with_guard(JsValue::Object(obj), guard),
+            )
+        }
+    };
+    initialize_error_on_this(interp, &target, name, message);
+    if let Some(JsValue::Object(options)) = args.get(1) {
+        let cause_key = PropertyKey::String(interp.intern("cause"));
+        let cause = options.borrow().get_property(&cause_key);
+        if let Some(cause) = cause {
+            target
+                .borrow_mut()
+                .define_builtin_property(cause_key, cause);
+        }
+    }
+    Ok(result)
+}
+
 /// Initialize error properties on an existing object
 fn initialize_error_on_this(
     interp: &mut Interpreter,
@@ -276,15 +320,7 @@ pub fn error_constructor(
     this: JsValue,
     args: &[JsValue],
 ) -> Result<Guarded, JsError> {
-    let message = args.first().cloned().unwrap_or(JsValue::Undefined);
-
-    // When called via `new Error()`, this is the newly created object
-    if let JsValue::Object(ref this_obj) = this {
-        initialize_error_on_this(interp, this_obj, "Error", message);
-    }
-
-    // Return undefined - new handler will return the created object
-    Ok(Guarded::unguarded(JsValue::Undefined))
+    construct_or_call_error(interp, this, args, "Error")
 }
 
 /// TypeError constructor
@@ -293,11 +329,7 @@ pub fn type_error_constructor(
     this: JsValue,
     args: &[JsValue],
 ) -> Result<Guarded, JsError> {
-    let message = args.first().cloned().unwrap_or(JsValue::Undefined);
-    if let JsValue::Object(ref this_obj) = this {
-        initialize_error_on_this(interp, this_obj, "TypeError", message);
-    }
-    Ok(Guarded::unguarded(JsValue::Undefined))
+    construct_or_call_error(interp, this, args, "TypeError")
 }
 
 /// RangeError constructor
@@ -306,11 +338,7 @@ pub fn range_error_constructor(
     this: JsValue,
     args: &[JsValue],
 ) -> Result<Guarded, JsError> {
-    let message = args.first().cloned().unwrap_or(JsValue::Undefined);
-    if let JsValue::Object(ref this_obj) = this {
-        initialize_error_on_this(interp, this_obj, "RangeError", message);
-    }
-    Ok(Guarded::unguarded(JsValue::Undefined))
+    construct_or_call_error(interp, this, args, "RangeError")
 }
 
 /// ReferenceError constructor
@@ -319,11 +347,7 @@ pub fn reference_error_constructor(
     this: JsValue,
     args: &[JsValue],
 ) -> Result<Guarded, JsError> {
-    let message = args.first().cloned().unwrap_or(JsValue::Undefined);
-    if let JsValue::Object(ref this_obj) = this {
-        initialize_error_on_this(interp, this_obj, "ReferenceError", message);
-    }
-    Ok(Guarded::unguarded(JsValue::Undefined))
+    construct_or_call_error(interp, this, args, "ReferenceError")
 }
 
 /// SyntaxError constructor
@@ -332,11 +356,7 @@ pub fn syntax_error_constructor(
     this: JsValue,
     args: &[JsValue],
 ) -> Result<Guarded, JsError> {
-    let message = args.first().cloned().unwrap_or(JsValue::Undefined);
-    if let JsValue::Object(ref this_obj) = this {
-        initialize_error_on_this(interp, this_obj, "SyntaxError", message);
-    }
-    Ok(Guarded::unguarded(JsValue::Undefined))
+    construct_or_call_error(interp, this, args, "SyntaxError")
 }
 
 /// URIError constructor
@@ -345,11 +365,7 @@ pub fn uri_error_constructor(
     this: JsValue,
     args: &[JsValue],
 ) -> Result<Guarded, JsError> {
-    let message = args.first().cloned().unwrap_or(JsValue::Undefined);
-    if let JsValue::Object(ref this_obj) = this {
-        initialize_error_on_this(interp, this_obj, "URIError", message);
-    }
-    Ok(Guarded::unguarded(JsValue::Undefined))
+    construct_or_call_error(interp, this, args, "URIError")
 }
 
 /// EvalError constructor
@@ -358,11 +374,7 @@ pub fn eval_error_constructor(
     this: JsValue,
     args: &[JsValue],
 ) -> Result<Guarded, JsError> {
-    let message = args.first().cloned().unwrap_or(JsValue::Undefined);
-    if let JsValue::Object(ref this_obj) = this {
-        initialize_error_on_this(interp, this_obj, "EvalError", message);
-    }
-    Ok(Guarded::unguarded(JsValue::Undefined))
+    construct_or_call_error(interp, this, args, "EvalError")
 }
 
 /// Create an error object from a JsError
